@@ -145,10 +145,18 @@ def _construct(cfg, mods, env, log, nodes, edges):
             if e["kind"] == "buffer":
                 obj = mods["edges.buffer"].Buffer(env, name, capacity=e["cap"], delay=stream(log, 1000 + i, 0, e["delays"], e.get("style", "const")),
                                                   mode=e["mode"])
+            elif e["kind"] == "conv":
+                # conveyors (implementation-only runs: the factory model has none): unit item length, speed and slot delay,
+                # so every time of the run is a whole number
+                if e["ckind"] == "cont":
+                    obj = common.load("edges.continuous_conveyor").ConveyorBelt(env, name, conveyor_length=e["cap"], speed=1, item_length=1,
+                                                                                accumulating=e["acc"])
+                else:
+                    obj = common.load("edges.slotted_conveyor").ConveyorBelt(env, name, capacity=e["cap"], delay=1, accumulating=e["acc"])
             else:
                 obj = mods["edges.fleet"].Fleet(env, name, capacity=e["cap"], delay=e["fdelay"], transit_delay=e["transit"])
             edges[i] = obj
-            st = obj.inbuiltstore
+            st = store_of(obj)
             oput, oget = st.put, st.get
 
             def put(ev, item, _o=oput, _i=i):
@@ -182,13 +190,17 @@ def _construct(cfg, mods, env, log, nodes, edges):
 
 
 
+def store_of(ed):
+    return ed.belt if hasattr(ed, "belt") else ed.inbuiltstore
+
+
 def _observe(env, edges, log):
     """end of a simulated instant: OBS lines (implementation side only, read by the oracle, never
     compared with the model) for every edge on which a request waits although it could be served"""
     for i, ed in edges.items():
-        st = ed.inbuiltstore
+        st = store_of(ed)
         free = st.capacity - len(st.items) - len(st.ready_items) - len(st.reservations_put)
-        if st.reserve_put_queue and free > 0:
+        if st.reserve_put_queue and free > 0 and not hasattr(ed, "belt"):      # a belt's entrance opens by the passage of time
             log.lines.append("OBS %d %d put %d %d" % (env.now, i, len(st.reserve_put_queue), free))
         avail = len(st.ready_items) - len(st.reservations_get)
         if st.reserve_get_queue and avail > 0:
@@ -203,6 +215,9 @@ def run_impl(cfg):
     """returns the canonical output lines of the implementation"""
     mods = {k: common.load(k) for k in ("nodes.source", "nodes.machine", "nodes.sink", "nodes.splitter", "nodes.combiner", "edges.buffer", "edges.fleet",
                                          "base.buffer_store", "base.fleet_store", "nodes.node", "edges.edge")}
+    if any(e.get("kind") == "conv" for e in cfg["edges"]):
+        for k in ("base.belt_store", "base.slotted_belt_store", "edges.continuous_conveyor", "edges.slotted_conveyor"):
+            common.load(k)
     log = Log()
     env = simpy.Environment()
     log.env = env
@@ -311,9 +326,11 @@ def run_impl(cfg):
                     out.append("S %d %d %d" % (i, flag, v))
         for i, e in enumerate(cfg["edges"]):
             ed = edges[i]
-            st = ed.inbuiltstore
+            st = store_of(ed)
             if e["kind"] == "buffer":
                 ed.update_final_buffer_avg_content(cfg["T"])
+            elif e["kind"] == "conv":
+                ed.update_final_conveyor_avg_content(cfg["T"])
             else:
                 ed.update_final_fleet_avg_content(cfg["T"])
             out.append("EDGE %d wsum=%s transit=%s ready=%s res=%d,%d,%d,%d" % (
@@ -436,6 +453,23 @@ def gen_policy(rng, k, allow_bad=False):
     if r < 0.75:
         return ("C", rng.randrange(k))
     return ("S", [rng.randrange(k) for _ in range(rng.choice([1, 2, 3, 5]))])
+
+
+def gen_config_conv(rng):
+    """a factory in which some edges are conveyors: run on the implementation only and judged by the oracle"""
+    c = gen_config(rng, with_fleet=rng.random() < 0.3)
+    k = 0
+    for e in c["edges"]:
+        if e["kind"] == "buffer" and (k == 0 or rng.random() < 0.4):
+            src, dst = e["src"], e["dst"]
+            e.clear()
+            e.update(kind="conv", ckind=rng.choice(["cont", "cont", "slot"]), cap=rng.choice([1, 2, 3, 4]), acc=rng.choice([0, 1]), src=src, dst=dst)
+            k += 1
+    for n in c["nodes"]:
+        # whole-number times only (the canonical trace prints integer times)
+        n["delays"] = [int(d) for d in n["delays"]]
+    c["model_skip"] = True
+    return c
 
 
 def gen_config(rng, with_fleet=False):
